@@ -7,9 +7,11 @@
 2. Conformance impl -> spec, total: for every first word the real decoder (recording visitor: handler
    overload + operand values for two second words), Decode<Interpreter> (name, expansion), the public
    Disassembler::NeedExpansion and Parser::Parse(tokens) must agree with TeakDecode (DecodeTrace).
-3. Execution clause (second word consumed iff needed, never executed; unused bits never change the
-   effect): isa_rec "len" mode -- every first word executed by the real interpreter with a trapping
-   second word, validated against TeakExec's length/outcome (added with the C01 machinery).
+3. Execution clause (the interpreter consumes the second word iff the table says so and resumes right behind
+   the instruction, in every 64K bank and across the bank boundaries): isa_rec "exp" mode -- every first word
+   that takes a second word executed by the real interpreter from random states (pc anywhere in the 18-bit
+   space, boundary-clustered), complete post-state and fetch/access list validated against CoreCycle
+   (IsaTrace).  One-word instructions and the unused-bit clause in execution are covered by C01's sweep.
 """
 import os
 import vlib
@@ -33,9 +35,20 @@ def run(ck):
     ck.validate_traces('DecodeTrace', 'Trace_Decode.cfg', files, timeout=1200)
     ck.sample_lines(files[5], 2, skip=100)
     ck.sample_lines(files[12], 2, skip=7)
+    # 3. execution clause for the two-word instructions
+    ck.build('isa_rec')
+    xfiles = [os.path.join(ck.work, 'exp_%02d.ndjson' % i) for i in range(8)]
+    ck.run_jobs(['%s --mode exp:%d..%d:%d --seed %d --out %s' % (ck.bin('isa_rec'), i * 8192, (i + 1) * 8192 - 1, ck.pick(2, 12),
+                                                                ck.seed * 131 + i, f) for i, f in enumerate(xfiles)], timeout=900)
+    xfiles = [f for f in xfiles if os.path.getsize(f) > 0]
+    ck.validate_traces('IsaTrace', 'Trace_Isa.cfg', xfiles, timeout=1800, sig_prefix='exec')
     ck.assumptions += ['TeakDecodeTable.tla was transcribed once from the pinned decoder.h and is frozen in /verif',
                        'TLC, CommunityModules (Bitwise, Json, IOUtils) and g++ are trusted']
 
 
 def replay(ck, path):
-    ck.validate_traces('DecodeTrace', 'Trace_Decode.cfg', [path.split('#')[0]])
+    p = path.split('#')[0]
+    if os.path.basename(p).startswith('exp_'):
+        ck.validate_traces('IsaTrace', 'Trace_Isa.cfg', [p], sig_prefix='exec')
+    else:
+        ck.validate_traces('DecodeTrace', 'Trace_Decode.cfg', [p])
